@@ -47,6 +47,7 @@ type PF struct {
 	// Visit, if set, is called with the state set holding *before* each instruction of the root analysis.
 	Visit func(fn *ssa.Function, in ssa.Instruction, before StateSet)
 	boolMemo map[interface{}]StateSet
+	preCall  map[*ssa.Call]StateSet // states in which each summarised call was entered (for result-sensitive refinement)
 	// DeepVisit: Visit is also called for the instructions of summarised callees, with the states of the call contexts
 	// reached from the root (union over contexts).
 	DeepVisit bool
@@ -126,6 +127,10 @@ func (p *PF) step(fn *ssa.Function, in ssa.Instruction, s StateSet) StateSet {
 	switch x := in.(type) {
 	case *ssa.Call:
 		if callee := staticCallee(&x.Call); callee != nil && callee.Blocks != nil && p.InScope != nil && p.InScope(callee) {
+			if p.preCall == nil {
+				p.preCall = map[*ssa.Call]StateSet{}
+			}
+			p.preCall[x] |= s
 			s = p.applySummary(callee, s)
 		}
 	case *ssa.RunDefers:
@@ -234,7 +239,13 @@ func (p *PF) run(fn *ssa.Function, entry StateSet, visit func(fn *ssa.Function, 
 							bv, pol := g.boolVal()
 							if call, ridx := boolResultCall(bv); call != nil {
 								if callee := staticCallee(&call.Call); callee != nil && callee.Blocks != nil && p.InScope(callee) {
-									es &= p.boolExits(callee, ridx, pol)
+									entry := p.preCall[call]
+									if entry == 0 {
+										for q := 0; q < p.N; q++ {
+											entry |= ss(q)
+										}
+									}
+									es &= p.boolExits(callee, ridx, pol, entry)
 								}
 							}
 						}
@@ -342,29 +353,35 @@ func boolResultCall(v ssa.Value) (*ssa.Call, int) {
 
 // boolExits: the states in which callee can return with result #ridx equal to val (a result that is not a boolean constant
 // counts for both values), over all entry states.
-func (p *PF) boolExits(callee *ssa.Function, ridx int, val bool) StateSet {
+func (p *PF) boolExits(callee *ssa.Function, ridx int, val bool, entry StateSet) StateSet {
 	type key struct {
 		fn   *ssa.Function
 		ridx int
 		val  bool
+		q    int
 	}
 	if p.boolMemo == nil {
 		p.boolMemo = map[interface{}]StateSet{}
-	}
-	k := key{callee, ridx, val}
-	if s, ok := p.boolMemo[k]; ok {
-		return s
 	}
 	all := StateSet(0)
 	for q := 0; q < p.N; q++ {
 		all |= ss(q)
 	}
-	p.boolMemo[k] = all // recursion guard: assume anything
 	var out StateSet
 	for q := 0; q < p.N; q++ {
+		if !entry.has(q) {
+			continue
+		}
+		k := key{callee, ridx, val, q}
+		if s, ok := p.boolMemo[k]; ok {
+			out |= s
+			continue
+		}
+		p.boolMemo[k] = all // recursion guard: assume anything
+		var one StateSet
 		for _, e := range p.run(callee, ss(q), nil) {
 			if ridx >= len(e.Ret.Results) {
-				out |= e.States
+				one |= e.States
 				continue
 			}
 			rv := returnedValue(e.Ret, ridx)
@@ -373,10 +390,11 @@ func (p *PF) boolExits(callee *ssa.Function, ridx int, val bool) StateSet {
 					continue
 				}
 			}
-			out |= e.States
+			one |= e.States
 		}
+		p.boolMemo[k] = one
+		out |= one
 	}
-	p.boolMemo[k] = out
 	return out
 }
 
